@@ -716,6 +716,11 @@ def _history(case, which):
                                 hist=hist, step=step, source=src, mode=mode, outcome=outcome):
                         diverged = True
                     r.nontrivial = True
+            # nothing is registered that was neither requested nor added by hand (a request for one molecule / pair does
+            # not pull in the others of the directory)
+            extra_ = sorted(set(content()) - set(model.reg))
+            if extra_ and not diverged:
+                diverged = bad('loaded-once', 'cache/%s/registered-unrequested' % which, step=step, extra=extra_)
             if diverged:
                 break
     # everything that can influence a later step: the model state, what the cache's own dictionary
